@@ -239,7 +239,8 @@ def _random_write(rng, kind, law, p):
     if kind == "aniso":
         return p
     name = str(rng.choice(list(p)))
-    factor = float(rng.uniform(0.8, 1.25))
+    # ordinary changes, and changes as small as a finite-difference step (1e-8 .. 1e-5 relative): every change counts
+    factor = float(rng.uniform(0.8, 1.25)) if rng.random() < 0.5 else 1.0 + float(rng.choice([-1, 1])) * 10 ** float(rng.uniform(-8, -5))
     new = p[name] * factor
     if name.startswith("v"):
         new = float(np.clip(new, 0.0, 0.35))
@@ -267,6 +268,9 @@ def run_update(case, ctx, rng):
         ctx.describe(f"update/aniso/{dim}D", True, kind=kind)
         return
     p = gmat.law_params(rng, kind)
+    if rng.random() < 0.3:
+        # another unit system (N/Angstrom^2 ...): moduli of order 1e-9
+        p = {k: (v * 1e-9 if not k.startswith("v") else v) for k, v in p.items()}
     nw = 0
     try:
         with ctx.monitored("no-exception", key + "/raised", expect=(AssertionError,)):
@@ -286,7 +290,7 @@ def run_update(case, ctx, rng):
                     got_S = np.asarray(law.S)
                     fresh = _make(kind, dim, p, a1, a2, ps)
                     if got_C is not None:
-                        ctx.check("update-matches-fresh", relerr(got_C, np.asarray(fresh.C)), 1e-13, key + "/C", step=step)
+                        ctx.check("update-matches-fresh", float(np.abs(got_C - np.asarray(fresh.C)).max() / np.abs(got_C).max()), 1e-14, key + "/C", step=step)
                     ctx.check("update-matches-fresh", relerr(got_S, np.asarray(fresh.S)), 1e-13, key + "/S", step=step)
                 fresh = _make(kind, dim, p, a1, a2, ps)
                 ctx.check("update-matches-fresh", relerr(np.asarray(law.C), np.asarray(fresh.C)), 1e-13, key + "/C-final")
